@@ -630,3 +630,93 @@ func c20r6(rc *core.RC) {
 		rc.Unknown("decoder/path-index-nodes", token.NoPos, "no addIndexNode call found in path.go")
 	}
 }
+
+// ---- C20.R7 a selector matches a name or an index by equality ----
+
+// Each path node answers Field(name) and Index(i) with (next node, matched, error). Child, quoted-name and
+// recursive-descent selectors select the members whose name EQUALS the selector, index selectors the element whose
+// index EQUALS it. A `matched == true` answer is therefore either unconditional (the wildcard, the recursive node for
+// array elements) or stands under exactly the test `n.selector == <parameter>`.
+func c20r7(rc *core.RC) {
+	p := rc.P
+	n := 0
+	for _, fd := range p.Funcs("decoder") {
+		if fd.Body == nil || fd.Recv == nil || (fd.Name.Name != "Field" && fd.Name.Name != "Index") || p.FileBase(fd.Pos()) != "path.go" {
+			continue
+		}
+		if fd.Type.Results == nil || fd.Type.Results.NumFields() != 3 || len(fd.Recv.List[0].Names) == 0 || fd.Type.Params.NumFields() != 1 {
+			continue
+		}
+		info := p.Info(fd)
+		fn := p.FuncName(fd)
+		recv := info.Defs[fd.Recv.List[0].Names[0]]
+		var param types.Object
+		if len(fd.Type.Params.List[0].Names) > 0 {
+			param = info.Defs[fd.Type.Params.List[0].Names[0]]
+		}
+		k := 0
+		var visit func(list []ast.Stmt, conds []ast.Expr)
+		visit = func(list []ast.Stmt, conds []ast.Expr) {
+			for _, st := range list {
+				switch x := st.(type) {
+				case *ast.ReturnStmt:
+					if len(x.Results) != 3 {
+						continue
+					}
+					v := core.ConstValue(info, x.Results[1])
+					if v == nil {
+						n++
+						k++
+						rc.Unknown(fmt.Sprintf("%s/match#%d by-equality", fn, k), x.Pos(), "the matched result %s is not a constant", core.Src(p.Fset, x.Results[1]))
+						continue
+					}
+					if v.String() != "true" {
+						continue
+					}
+					n++
+					k++
+					rc.Touch(fn)
+					key := fmt.Sprintf("%s/match#%d by-equality", fn, k)
+					if len(conds) == 0 {
+						rc.OK(key, x.Pos(), "matches every %s (wildcard or recursive descent)", map[string]string{"Field": "name", "Index": "index"}[fd.Name.Name])
+						continue
+					}
+					good := len(conds) == 1
+					if good {
+						be, isBin := core.Unparen(conds[0]).(*ast.BinaryExpr)
+						good = isBin && be.Op == token.EQL
+						if good {
+							isSel := func(e ast.Expr) bool {
+								s, ok := core.Unparen(e).(*ast.SelectorExpr)
+								return ok && s.Sel.Name == "selector" && core.ObjOf(info, s.X) == recv
+							}
+							isParam := func(e ast.Expr) bool { return param != nil && core.ObjOf(info, e) == param }
+							good = (isSel(be.X) && isParam(be.Y)) || (isSel(be.Y) && isParam(be.X))
+						}
+					}
+					var cs []string
+					for _, c := range conds {
+						cs = append(cs, core.Src(p.Fset, c))
+					}
+					rc.Check(good, key, x.Pos(), "the node matches under `%s`; a selector selects by equality of its own selector with the name or index asked for (not by prefix, case folding or an ordering)", strings.Join(cs, " && "))
+				case *ast.IfStmt:
+					visit(x.Body.List, append(append([]ast.Expr{}, conds...), x.Cond))
+					if e, ok := x.Else.(*ast.BlockStmt); ok {
+						visit(e.List, append(append([]ast.Expr{}, conds...), &ast.UnaryExpr{Op: token.NOT, X: x.Cond}))
+					}
+				case *ast.BlockStmt:
+					visit(x.List, conds)
+				case *ast.SwitchStmt:
+					for _, c := range x.Body.List {
+						cc := c.(*ast.CaseClause)
+						visit(cc.Body, append(append([]ast.Expr{}, conds...), x.Tag))
+					}
+				}
+			}
+		}
+		visit(fd.Body.List, nil)
+	}
+	if n < 4 {
+		rc.Unknown("decoder/path-node-matchers", token.NoPos, "found %d matching returns in the Field/Index methods of the path nodes (confirmed: selector, index, wildcard, recursive x2)", n)
+	}
+}
